@@ -20,6 +20,13 @@ package main
 // no handler and renew nothing; the statement does not say whether such a connection is "silent",
 // so the model accepts a close anywhere between lastHandledUnit + keep-alive and
 // lastInboundByte + keep-alive for them (see Assumptions).
+//
+// Two more dimensions (after seeded change C16-m5 and an observation of its author):
+// Upgrader.KeepaliveTime is 0 (disabled: the upgrade must cancel the HTTP deadline, afterwards no
+// timer may close the connection and "open at the end" is the expected outcome), smaller than,
+// equal to or larger than the engine's HTTP keep-alive time (kcfg.wska); and the first request may
+// already be in the socket when the connection is handed to AddConnNonTLSNonBlocking (kcfg.early),
+// so that it can be handled while that call is still running.
 
 import (
 	"bytes"
@@ -674,7 +681,9 @@ func keepaliveScenarios(tier string) []weighted {
 		out = append(out, weighted{&vkit.Scenario{Name: c.name(), Body: kbody(c), Check: check, P: c.p, D: c.d,
 			Opts:     vsched.Options{Horizon: 60000},
 			Counters: func() map[string]int { return lastCounters }, Outcome: func() string { return lastOutcome },
-			NonTrivial: func(m map[string]int) bool { return m["timers_fired"] > 0 || m["ws_open_at_end_keepalive_disabled"] > 0 }}, weight})
+			NonTrivial: func(m map[string]int) bool {
+				return m["timers_fired"] > 0 || m["ws_open_at_end_keepalive_disabled"] > 0
+			}}, weight})
 	}
 	// both tiers use gap lists of length <= 2; thorough adds a gap value, all epoll modes for the
 	// two-gap HTTP lists, the two-gap WebSocket lists and one more preemption for the short lists
@@ -886,6 +895,10 @@ func keepaliveScenarios(tier string) []weighted {
 			}
 			if x.calm {
 				p, d = 1, 1
+			} else if !thorough && len(steps) >= 2 && x.ws {
+				// a fragment followed by more: the poller consumes the fragment concurrently with the
+				// clock thread; free choices only in the quick tier
+				d = 0
 			}
 			add(kcfg{mode: m, exec: "go", ws: x.ws, steps: steps, work: x.work, calm: x.calm, wska: x.wska, early: x.early, p: p, d: d})
 		}
